@@ -46,8 +46,14 @@ theorem tables_orders :
     ∧ TrapTables.divertOrder.idxOf "Return" < TrapTables.divertOrder.idxOf "Interrupt"
     ∧ TrapTables.divertOrder.idxOf "Interrupt" < TrapTables.divertOrder.idxOf "Exit"
     ∧ (Divert.ret none).rank < (Divert.interrupt none).rank
-    ∧ (Divert.interrupt none).rank < (Divert.exit none).rank ∧ Divert.other.rank < (Divert.ret none).rank := by
-  refine ⟨?_, ?_, by decide, by decide, by decide, by decide, by decide, by decide, by decide, by decide, by decide⟩
+    ∧ (Divert.interrupt none).rank < (Divert.exit none).rank ∧ Divert.other.rank < (Divert.ret none).rank
+    ∧ TrapTables.divertOrder.idxOf "Exit" < TrapTables.divertOrder.idxOf "Abort" ∧ "Abort" ∈ TrapTables.divertOrder
+    ∧ (Divert.exit none).rank < (Divert.abort none).rank
+    ∧ (∀ d : Divert, ∀ n ∈ d.variantName, n ∈ TrapTables.divertOrder) := by
+  refine ⟨?_, ?_, by decide, by decide, by decide, by decide, by decide, by decide, by decide, by decide, by decide,
+    by decide, by decide, by decide, ?_⟩
+  rotate_left 2
+  · intro d; cases d <;> simp [Divert.variantName, TrapTables.divertOrder]
   · intro a b; cases a <;> cases b <;> decide
   · intro a; cases a <;> decide
 
